@@ -83,8 +83,36 @@ func shrinkBytes(c core.Case) []core.Case {
 // token kinds for shrinking: the simplest representative of each kind
 var simplest = map[string]string{
 	"b": "a", "5": "a", "-5": "5", "1.5": "5", `"q r"`: "a", "w*": "a", "*": "a", "/r/": "a",
-	"=": ":", "<": ">", "{": "[", "}": "]", "OR": "AND", "-": "+", "^": "~", "2": "5",
-	"v": "a", "f": "a", "g": "a", "x": "a", "y": "a",
+	"=": ":", "<": ">", "{": "[", "}": "]", "OR": "AND", "-": "+", "^": "~", "2": "a", "1": "a", "3": "a",
+	"v": "a", "f": "a", "g": "a", "x": "a", "y": "a", "D": "a",
+}
+
+// splitTokens splits a single-space-joined token text; a double-quoted phrase is one token.
+func splitTokens(in string) []string {
+	var toks []string
+	for i := 0; i < len(in); {
+		if in[i] == ' ' {
+			i++
+			continue
+		}
+		j := i
+		if in[i] == '"' {
+			j = i + 1
+			for j < len(in) && in[j] != '"' {
+				j++
+			}
+			if j < len(in) {
+				j++
+			}
+		} else {
+			for j < len(in) && in[j] != ' ' {
+				j++
+			}
+		}
+		toks = append(toks, in[i:j])
+		i = j
+	}
+	return toks
 }
 
 // shrinkTokens: candidates for token-sequence cases (In = tokens joined by single spaces): drop one
@@ -99,7 +127,7 @@ func shrinkTokensField(c core.Case, get func(core.Case) string, set func(*core.C
 	if in == "" {
 		return nil
 	}
-	toks := strings.Split(in, " ")
+	toks := splitTokens(in)
 	var out []core.Case
 	emit := func(t []string) {
 		d := c
